@@ -518,33 +518,8 @@ def impl_sx(steps: List[dict]) -> str:
 
 def classes_of(hist: List[list]) -> List[str]:
     """Decidable input classes outside the proved fragment F:
-       K_clear      the graph is re-created;
-       K_live_drop  an instance may die while an evaluation is live (begun by a Next, not yet closed) -- the program drops
-                    one, or another evaluation that was holding it ends (Close, or a Next that may exhaust it) -- and the
-                    live evaluation is asked for another row afterwards: an instance that dies before its turn is handed
-                    out as None."""
-    ks = []
-    kinds = [o[0] for o in hist]
-    if "Clear" in kinds:
-        ks.append("K_clear")
-    begun = set()
-    tainted = set()
-    live_drop = False
-    for o in hist:
-        if o[0] == "Next":
-            if o[1] in tainted:
-                live_drop = True
-            tainted |= (begun - {o[1]})     # may exhaust evaluation o[1] and release what it held
-            begun.add(o[1])
-        elif o[0] == "Close":
-            begun.discard(o[1])
-            tainted.discard(o[1])
-            tainted |= begun
-        elif o[0] == "Drop":
-            tainted |= begun
-    if live_drop:
-        ks.append("K_live_drop")
-    return ks
+       K_clear      the graph is re-created."""
+    return ["K_clear"] if any(o[0] == "Clear" for o in hist) else []
 
 
 def well_formed(hist: List[list]) -> bool:
@@ -833,7 +808,7 @@ def replay_findings(rep: Report, prop: str, model_ok: bool, accept_all: Dict[str
                            "explanation": f"regression: the defect repaired by {f.commit} is back"})
 
 
-ACCEPT = {"K_clear": "C13-d", "K_live_drop": "C13-e"}
+ACCEPT = {"K_clear": "C13-d"}
 TRUSTED = [
     "source pins pins/registry.json (19 methods mirrored by the hand model but not translated: Variable domain plumbing, HashedIterable / "
     "HashedValue identity, let / entity / an, SymbolicExpression / RWXNode registration, WrappedInstance.__eq__/__hash__)",
